@@ -162,5 +162,12 @@ def rules(ctx, db):
                "the worker loop runs each job it receives and then waits for the next one", f)
 
 
+def rules_all(ctx, db):
+    rules(ctx, db)
+    if ctx.tier == "thorough" and ctx.cfg == "A":
+        from .. import witness
+        witness.obligations(ctx, "C17")
+
+
 def check(tier):
-    return engine.run("C17", tier, rules, NOT_DECIDED, [])
+    return engine.run("C17", tier, rules_all, NOT_DECIDED, [])
